@@ -149,9 +149,17 @@ func (g *semGen) fieldType(av avail) Type {
 
 // GenSet draws a valid schema set under the Go-name hygiene precondition.
 func GenSet(s gen.Src, module string) (*Set, map[string]bool) {
+	return GenSetN(s, module, 0)
+}
+
+// GenSetN is GenSet with a fixed number of packages (0 = drawn 1..3).
+func GenSetN(s gen.Src, module string, npkgs int) (*Set, map[string]bool) {
 	g := &semGen{s: s, Feats: map[string]bool{}}
 	set := &Set{Module: module}
-	np := 1 + s.Intn(3, "npkgs")
+	np := npkgs
+	if np <= 0 {
+		np = 1 + s.Intn(3, "npkgs")
+	}
 	type exported struct {
 		pkg                      *Package
 		enums, structs, messages []string
